@@ -35,6 +35,12 @@ CLAIMS = {
          "re-writing what was read from writer output reproduces it character for character; any follower (fold over events) gets the same result directly or through the text. "
          "Tie: writer text, builder result and protocol verdict of the real code compared with the model on exhaustive small and random histories, and on strings.",
          "Lean 4 proof (writer/reader inverse theorem by a compositional link invariant over the writer's segment stack) + differential correspondence on event histories", "4.9"),
+ 'C11': ("Theorems in Purr/Props/C11.lean, for EVERY adjacency list: validate g = none iff WellFormed g (independent definition in Purr/Spec/WellFormed.lean: targets exist, no self bond, no pair bonded twice, "
+         "exactly one counterpart of compatible kind); walk reports success only on well-formed lists and on an ill-formed list returns an error having emitted NO event (never hands the follower an unbalanced molecule); "
+         "the returned error identifies a bond that really has that defect (ErrorReal, one clause per variant); conversely a well-formed list is never rejected with an error (traversal invariant: every stack entry is a real half-bond). "
+         "The full converse 'well-formed => Ok' is false of the code beyond 99 simultaneously open ring closures (panic, known finding D17 under C06), so the theorem states Ok-or-panic; below that bound C13's theorems apply. "
+         "Tie: verdict, events and writer text of walk compared with the model on exhaustive small graphs (garbage included) and single-defect mutations.",
+         "Lean 4 proof (validate decides an independent well-formedness predicate; traversal invariant) + differential correspondence on exhaustive small graphs and mutations", "4.11"),
  'C13': ("Theorems in Purr/Props/C13.lean about the ring-number pool, for every sequence of hits (every reachable interleaving of openings and closings): the pool invariant "
          "(open and returned numbers partition 1..counter-1, no duplicates, one entry per unordered pair) holds in every reachable state; an opening hit returns the least number >= 1 not currently open; "
          "a closing hit returns the number its pair was opened with and that number is free at once; an opening number never exceeds the count of open closures plus one, hence "
